@@ -35,7 +35,7 @@ let with_created = ref true
 let srec_str (r : record) =
   Printf.sprintf "%s.%s.%s.%s.%s.%s.%s.%s" (sn r.r_wf) (sn r.r_fid) (sn r.r_run) (sz (rs_code r.r_state)) (sz r.r_status)
     (match r.r_obj with OVal (s, _) -> sz s | ODeleted -> "-999") (if !with_created then sz r.r_created else "0") (sz r.r_ver)
-let topic_tok = function TStatus s -> "s" ^ sz s | TDelete -> "d" | TRunStateChange -> "r"
+let topic_tok = function TStatus s -> "s" ^ sz s | TDelete -> "d" | TRunStateChange -> "r" | TConn c -> "k" ^ string_of_n c
 let oentry_str (o : oentry) =
   Printf.sprintf "%s/%s/%s/%s/%s/%s/%s/%s" (sn o.o_id) (sn o.o_wf) (topic_tok o.o_topic) (sn o.o_run) (sn o.o_fid) (sz o.o_type) (sz o.o_state) (sz o.o_ver)
 let sobs_str = function
